@@ -7,7 +7,7 @@ CONSTANTS
   MaxNr = 2
   MinAge = "zero"
   MaxAge = "inf"
-  MaxNrEquality = TRUE
+  MaxNrEquality = FALSE
   MaxSerial = 9
   MaxSession = 9
   DeltaChoices <- Deltas2
